@@ -173,6 +173,14 @@ Definition py_getitem (c k : pyval) : res pyval :=
   | PStr _ | PObj _ _ _ => Raise Unmodelled
   end.
 
+(* c["literal"]: the key is a string literal of the program text, so it is compared like a name (computes in proofs);
+   Proofs/PyDyn.v shows key_eqb = String.eqb, i.e. this is py_getitem c (PStr k) *)
+Definition py_getitem_lit (c : pyval) (k : string) : res pyval :=
+  match c with
+  | PDict d => match assoc k d with Some v => Ok v | None => Raise KeyError end
+  | _ => py_getitem c (PStr k)
+  end.
+
 (* x in c *)
 Definition py_in (tab : string -> option (list string)) (x c : pyval) : res pyval :=
   match c with
@@ -301,7 +309,7 @@ Fixpoint py_first (l : list pyval) (cond : pyval -> res pyval) : res (option pyv
 (* ------------------------------------------------------------------ comparison of a dumped real object with an embedding *)
 (* `agrees m d`: every attribute / item / element that the embedding m fixes is present in the dump d with an
    agreeing value; d may carry further attributes; identities are not compared.  Two markers may occur in m:
-   an object of class "?" stands for any value but None, an object of class "?dict" for any dict. *)
+   an object of class "?" stands for any value but None, the dict {"?": _} for any dict. *)
 Fixpoint agrees (m d : pyval) {struct m} : bool :=
   match m with
   | PNone => match d with PNone => true | _ => false end
@@ -310,7 +318,6 @@ Fixpoint agrees (m d : pyval) {struct m} : bool :=
   | PStr x => match d with PStr y => String.eqb x y | _ => false end
   | PObj c _ f =>
     if key_eqb c "?" then negb (py_is_none d)
-    else if key_eqb c "?dict" then match d with PDict _ => true | _ => false end
     else match d with
          | PObj c2 _ f2 =>
            key_eqb c c2 &&
@@ -324,6 +331,7 @@ Fixpoint agrees (m d : pyval) {struct m} : bool :=
   | PDict items =>
     match d with
     | PDict items2 =>
+      (match items with [(k, _)] => String.eqb k "?" | _ => false end) ||
       Nat.eqb (length items) (length items2) &&
       (fix all (l : list (string * pyval)) : bool :=
          match l with
